@@ -1,9 +1,11 @@
 /-
   Driver for the name-server operation model (C15).
     seq <n> {op}*      op = R <name> <uri> <safe> <tags> | M <name> <tags> | D <name> | P <prefix> | L <name> | C | S <prefix>
-      → r1;r2;... | name=uri:tags;...         (results of the sequential run, then the final map in dict order)
+      → r1;r2;... | name=uri:tags;...         (results of the sequential run, then the final map in dict order;
+        prefixed with TRANSCRIPTION-DIFFERS when the transcribed source methods answer otherwise)
 -/
 import PyroModel.NsOps
+import PyroModel.NsOpsEmb
 import Driver.Util
 
 open Pyro Pyro.NsOps Driver
@@ -55,6 +57,9 @@ def step : List String → String
     match n.toNat?.bind (fun k => parseOps k rest) with
     | some calls =>
       let (s, rs) := Lock.seqRun (calls.map toOp) ([] : Store)
+      -- the methods as transcribed from nameserver.py (Gen/C15Src.lean) are run on the same line: a disagreement with the
+      -- model is a mismatch of the line
+      (if Pyro.C15.srcAgrees calls [] then "" else "TRANSCRIPTION-DIFFERS ") ++
       ";".intercalate (rs.map resStr) ++ " | " ++
         ";".intercalate (s.map fun (n, u, t) => s!"{natListToString n}={u}:{natListToString t}")
     | none => "bad-op"
